@@ -14,6 +14,14 @@ theorem tvSet_ok (s : State) (i : Nat) (t : Token) (h : i < s.tv.length) :
     tvSet s i t = .ok { s with tv := s.tv.set i t } := by
   simp [tvSet, h]
 
+/-- token counting, and the scan offset `p` at which the reported token was dispatched: a comment
+dispatched on `/` or `-` has at least two bytes of input from there (`/*`, `--`) -/
+def TokCount (s : State) (more : Bool) (s' : State) : Prop :=
+  s.toks ≤ s'.toks ∧
+  (more = true → s'.toks = s.toks + 1 ∧ ∃ p, s.pos ≤ p ∧ p < s.input.length ∧
+    ∀ t, s'.tv[s.cur]? = some t → t.cat = 99 → (s.input[p]? = some 47 ∨ s.input[p]? = some 45) → p + 2 ≤ s.input.length) ∧
+  (more = false → ∀ t, s'.tv[s.cur]? = some t → t.cat = 0 ∨ s.tv[s.cur]? = some t)
+
 /-- result of a `tokenize` call -/
 def TokStep (s : State) (more : Bool) (s' : State) : Prop :=
   s'.input = s.input ∧ s'.flags = s.flags ∧ s'.cur = s.cur ∧ s'.tv.length = s.tv.length ∧
@@ -21,7 +29,44 @@ def TokStep (s : State) (more : Bool) (s' : State) : Prop :=
   (∀ j, j ≠ s.cur → s'.tv[j]? = s.tv[j]?) ∧
   (more = true → s.pos < s'.pos ∧ ∃ t, s'.tv[s.cur]? = some t ∧ t.cat ≠ 0 ∧ TokAt s.input s.pos s'.pos t) ∧
   (more = false → s'.pos = s.input.length ∨ s.input = []) ∧
-  (∀ t, s'.tv[s.cur]? = some t → (TokInv t ∧ CatOK t) ∨ s.tv[s.cur]? = some t)
+  (∀ t, s'.tv[s.cur]? = some t → (TokInv t ∧ CatOK t) ∨ s.tv[s.cur]? = some t) ∧
+  TokCount s more s'
+
+theorem slash_comment (rest : Bytes) (r : Lex) (h : parseSlash rest = .ok r) (hc : r.tok.cat = 99) : 2 ≤ rest.length := by
+  rcases Nat.lt_or_ge rest.length 2 with hlt | hge
+  · exfalso
+    unfold parseSlash at h
+    simp only [g, orM, toBool, byteNe, bind, Except.bind, pure, Except.pure] at h
+    by_cases h1 : (1 == rest.length) = true
+    · simp only [h1, ↓reduceIte] at h
+      unfold parseOperator1 at h
+      have hl : 1 ≤ rest.length := by simp at h1; omega
+      rw [assign_ok _ _ _ _ _ (by rw [clip_one]; exact hl)] at h
+      simp only [bind, Except.bind, pure, Except.pure, Except.ok.injEq] at h
+      rw [← h] at hc
+      simp at hc
+    · have h0 : rest.length = 0 := by simp at h1; omega
+      simp only [h1, Bool.false_eq_true, ↓reduceIte, at', List.getElem?_eq_none (show rest.length ≤ 1 by omega)] at h
+      cases h
+  · exact hge
+
+theorem dash_comment (flags : Nat) (rest : Bytes) (r : Lex) (h : parseDash flags rest = .ok r) (hc : r.tok.cat = 99) :
+    2 ≤ rest.length := by
+  rcases Nat.lt_or_ge rest.length 2 with hlt | hge
+  · exfalso
+    unfold parseDash at h
+    have e1 : decide (2 < rest.length) = false := by simp; omega
+    have e2 : (2 == rest.length) = false := by simp; omega
+    have e3 : decide (1 < rest.length) = false := by simp; omega
+    simp only [g, andM, toBool, byteIs, bind, Except.bind, pure, Except.pure, e1, e2, e3, Bool.false_eq_true, ↓reduceIte] at h
+    rw [assign_ok _ _ _ _ _ (by rw [clip_one]; simp)] at h
+    simp only [Except.ok.injEq] at h
+    rw [← h] at hc
+    simp at hc
+  · exact hge
+
+theorem dispatch_47 : dispatch 47 = .slash := by decide +kernel
+theorem dispatch_45 : dispatch 45 = .dash := by decide +kernel
 
 theorem tokLoop_ok (fuel : Nat) : ∀ (s : State), s.pos ≤ s.input.length → s.cur < s.tv.length →
     s.input.length - s.pos < fuel → ∃ more s', tokLoop s fuel = .ok (more, s') ∧ TokStep s more s' := by
@@ -46,9 +91,23 @@ theorem tokLoop_ok (fuel : Nat) : ∀ (s : State), s.pos ≤ s.input.length → 
         rw [f1, List.drop_drop]
         congr 1
         rw [Nat.add_comm]
+      -- a comment dispatched on `/` or `-` needs two bytes
+      have hcom : r.tok.cat = 99 → (s.input[s.pos]? = some 47 ∨ s.input[s.pos]? = some 45) → s.pos + 2 ≤ s.input.length := by
+        intro h99 hb
+        rw [List.getElem?_eq_getElem hlt] at hb
+        have : 2 ≤ (s.input.drop s.pos).length := by
+          rcases hb with hb | hb
+          · have hb' : s.input[s.pos] = 47 := by simpa using hb
+            rw [hb', dispatch_47] at hr
+            exact slash_comment _ r hr h99
+          · have hb' : s.input[s.pos] = 45 := by simpa using hb
+            rw [hb', dispatch_45] at hr
+            exact dash_comment _ _ r hr h99
+        rw [List.length_drop] at this
+        omega
       split
       · rename_i hcat
-        refine ⟨true, _, rfl, rfl, rfl, rfl, by simp, by simp, by simp; omega, ?_, ?_, by simp, ?_⟩
+        refine ⟨true, _, rfl, rfl, rfl, rfl, by simp, by simp, by simp; omega, ?_, ?_, by simp, ?_, ?_⟩
         · intro j hj
           simp [List.getElem?_set, Ne.symm hj]
         · intro _
@@ -59,12 +118,18 @@ theorem tokLoop_ok (fuel : Nat) : ∀ (s : State), s.pos ≤ s.input.length → 
           simp [List.getElem?_set, hc] at ht
           rw [← ht]
           exact ⟨⟨v1, v2⟩, c1⟩
-      · obtain ⟨more, s', hs', q1, q2, q3, q4, q5, q6, q7, q8, q9, q10⟩ := ih
+        · refine ⟨by simp, fun _ => ⟨by simp, s.pos, Nat.le_refl _, hlt, ?_⟩, fun h => by cases h⟩
+          intro t ht h99
+          simp [List.getElem?_set, hc] at ht
+          rw [← ht] at h99
+          exact hcom h99
+      · obtain ⟨more, s', hs', q1, q2, q3, q4, q5, q6, q7, q8, q9, q10, q11⟩ := ih
           { s with tv := s.tv.set s.cur { r.tok with pos := r.tok.pos + s.pos }, pos := s.pos + r.next,
                    ddx := s.ddx + r.ddx, hash := s.hash + r.hash }
           (by simp; omega) (by simp; exact hc) (by simp; omega)
-        simp at q1 q2 q3 q4 q5 q6 q7 q8 q9 q10
-        refine ⟨more, s', hs', q1, q2, q3, q4, by omega, q6, ?_, ?_, q9, ?_⟩
+        unfold TokCount at q11
+        simp at q1 q2 q3 q4 q5 q6 q7 q8 q9 q10 q11
+        refine ⟨more, s', hs', q1, q2, q3, q4, by omega, q6, ?_, ?_, q9, ?_, ?_⟩
         · intro j hj
           rw [q7 j hj]
           simp [List.getElem?_set, Ne.symm hj]
@@ -78,8 +143,18 @@ theorem tokLoop_ok (fuel : Nat) : ∀ (s : State), s.pos ≤ s.input.length → 
             simp [List.getElem?_set, hc] at h
             rw [← h]
             exact ⟨⟨v1, v2⟩, c1⟩
+        · refine ⟨q11.1, fun hm => ?_, fun hm t ht => ?_⟩
+          · obtain ⟨e1, p, p1, p2, p3⟩ := q11.2.1 hm
+            exact ⟨e1, p, by omega, p2, p3⟩
+          · rcases q11.2.2 hm t ht with h | h
+            · exact Or.inl h
+            · left
+              simp [List.getElem?_set, hc] at h
+              rw [← h]
+              rename_i hcat
+              simpa using hcat
     · simp only [hlt, ↓reduceIte, pure, Except.pure]
-      refine ⟨false, s, rfl, rfl, rfl, rfl, rfl, Nat.le_refl _, hp, fun _ _ => rfl, by simp, ?_, fun t ht => Or.inr ht⟩
+      refine ⟨false, s, rfl, rfl, rfl, rfl, rfl, Nat.le_refl _, hp, fun _ _ => rfl, by simp, ?_, fun t ht => Or.inr ht, Nat.le_refl _, by simp, fun _ t ht => Or.inr ht⟩
       intro _; left; omega
 
 theorem flag2Delim_ne (flags : Nat) (h : (hasFlag flags flagQuoteSingle || hasFlag flags flagQuoteDouble) = true) :
@@ -102,7 +177,7 @@ theorem tokenize_ok (s : State) (hp : s.pos ≤ s.input.length) (hc : s.cur < s.
     have : s.input = [] := by
       have : s.input.length = 0 := by simpa using he
       exact List.eq_nil_of_length_eq_zero this
-    exact ⟨false, s, rfl, rfl, rfl, rfl, rfl, Nat.le_refl _, hp, fun _ _ => rfl, by simp, fun _ => Or.inr this, fun t ht => Or.inr ht⟩
+    exact ⟨false, s, rfl, rfl, rfl, rfl, rfl, Nat.le_refl _, hp, fun _ _ => rfl, by simp, fun _ => Or.inr this, fun t ht => Or.inr ht, Nat.le_refl _, by simp, fun _ t ht => Or.inr ht⟩
   · have hlen : 1 ≤ s.input.length := by
       have : ¬ s.input.length = 0 := by simpa using he
       omega
@@ -117,7 +192,7 @@ theorem tokenize_ok (s : State) (hp : s.pos ≤ s.input.length) (hc : s.cur < s.
       simp only [hr]
       have hc' : s.cur < (s.tv.set s.cur {}).length := by simp; exact hc
       simp only [tvSet_ok { s with tv := s.tv.set s.cur {} } s.cur r.tok hc']
-      refine ⟨true, _, rfl, rfl, rfl, rfl, by simp, by simp; omega, by simp; exact n2, ?_, ?_, by simp, ?_⟩
+      refine ⟨true, _, rfl, rfl, rfl, rfl, by simp, by simp; omega, by simp; exact n2, ?_, ?_, by simp, ?_, ?_⟩
       · intro j hj
         simp [List.getElem?_set, Ne.symm hj]
       · intro _
@@ -128,11 +203,24 @@ theorem tokenize_ok (s : State) (hp : s.pos ≤ s.input.length) (hc : s.cur < s.
         simp [List.getElem?_set, hc] at ht
         rw [← ht]
         exact ⟨⟨v1, v2⟩, c1⟩
+      · refine ⟨by simp, fun _ => ⟨by simp, 0, by omega, by omega, ?_⟩, fun h => by cases h⟩
+        intro t ht h99
+        simp [List.getElem?_set, hc] at ht
+        rw [← ht, hcat] at h99
+        exact absurd h99 (by decide)
     · simp only [hq, Bool.false_eq_true, ↓reduceIte]
-      obtain ⟨more, s', hs', q1, q2, q3, q4, q5, q6, q7, q8, q9, q10⟩ := tokLoop_ok (s.input.length + 1)
+      obtain ⟨more, s', hs', q1, q2, q3, q4, q5, q6, q7, q8, q9, q10, q11⟩ := tokLoop_ok (s.input.length + 1)
         { s with tv := s.tv.set s.cur {} } hp (by simp; exact hc) (by simp; omega)
-      simp at q1 q2 q3 q4 q5 q6 q7 q8 q9 q10
-      refine ⟨more, s', hs', q1, q2, q3, q4, q5, q6, ?_, q8, q9, ?_⟩
+      unfold TokCount at q11
+      simp at q1 q2 q3 q4 q5 q6 q7 q8 q9 q10 q11
+      refine ⟨more, s', hs', q1, q2, q3, q4, q5, q6, ?_, q8, q9, ?_, q11.1, q11.2.1, ?_⟩
+      rotate_left 2
+      · intro hm t ht
+        rcases q11.2.2 hm t ht with h | h
+        · exact Or.inl h
+        · left
+          simp [List.getElem?_set, hc] at h
+          rw [← h]
       · intro j hj
         rw [q7 j hj]
         simp [List.getElem?_set, Ne.symm hj]
